@@ -79,7 +79,7 @@ func propC14(t *rapid.T) {
 
 	var arrival, delivered [][]*api.ReplicateMsg = make([][]*api.ReplicateMsg, n), make([][]*api.ReplicateMsg, n)
 	triggers := map[string]bool{}
-	flushes, errFlushes := 0, 0
+	flushes, errFlushes, rewrites := 0, 0, 0
 	var hist []string
 	globalPending := func() int {
 		s := 0
@@ -122,9 +122,27 @@ func propC14(t *rapid.T) {
 		wantErr := fmt.Errorf("callback-error-%d", s)
 		called := 0
 		var got []*api.ReplicateMsg
+		// the production callback (ChannelWriter.HandleReplicateMessage) rewrites the messages in place (replicate info, mapped
+		// database / collection names): what a pack measures after the callback differs from what it measured on arrival
+		rewrite := rapid.SampledFrom([]string{"", "", "", "grow", "shrink"}).Draw(t, "callbackRewrites")
 		cb := func(msgs []*api.ReplicateMsg) error {
 			called++
 			got = append([]*api.ReplicateMsg(nil), msgs...)
+			if rewrite != "" {
+				for _, rm := range msgs {
+					for _, m := range rm.MsgPack.Msgs {
+						if im, ok := m.(*msgstream.InsertMsg); ok {
+							if rewrite == "grow" {
+								im.InsertRequest.CollectionName = "mapped-collection-name-of-the-downstream-cluster"
+								im.InsertRequest.DbName = "mapped-database"
+							} else {
+								im.InsertRequest.CollectionName = ""
+							}
+							rewrites++
+						}
+					}
+				}
+			}
 			if failThis {
 				return wantErr
 			}
@@ -226,6 +244,7 @@ func propC14(t *rapid.T) {
 		sc.Class("trigger:" + k)
 	}
 	sc.ClassIf(errFlushes > 0, "callback-error")
+	sc.ClassIf(rewrites > 0, "callback-rewrites-messages-in-place(size changes)")
 	sc.ClassIf(n > 1, "shared-memory-budget")
 	sc.Count("flushes", flushes)
 	sc.NonTrivial(len(triggers) >= 2 && flushes >= 2)
